@@ -365,3 +365,11 @@ Proof.
   - apply elem_admits_same_layout; exact H.
   - apply computed_admits_same_layout; exact H.
 Qed.
+
+Theorem store_into_admits_same_layout : forall src dst,
+    store_into_admits src dst = true ->
+    canon src = canon dst /\ forall v, arc4_encode src v = arc4_encode dst v.
+Proof.
+  intros src dst H. assert (Hc : canon src = canon dst) by (apply py_eq_sound_sym; exact H).
+  split; [exact Hc|]. intro v. apply same_layout_same_encoding. exact Hc.
+Qed.
